@@ -33,10 +33,11 @@ class RecordingRegressor(BaseEstimator, RegressorMixin):
     """fit stores copies of what it was given; predict is a deterministic function of
     the stored training set and of the row, so an output identifies the model."""
 
-    def __init__(self, tag=0, yield_fit=0, yield_predict=0):
+    def __init__(self, tag=0, yield_fit=0, yield_predict=0, random_state=None):
         self.tag = tag
         self.yield_fit = yield_fit
         self.yield_predict = yield_predict
+        self.random_state = random_state          # never used: a seeded base estimator is an ordinary thing to hand to a meta-estimator
 
     def fit(self, X, y, sample_weight=None):
         _maybe_yield(self.yield_fit)
@@ -238,3 +239,37 @@ class FakeTSNE(BaseEstimator, TransformerMixin):
     def fit(self, X, y=None):
         self.fit_transform(X, y)
         return self
+
+
+class KwargsRegressor(RecordingRegressor):
+    """a duck-typed user estimator whose fit takes its weights through **kwargs (as GridSearchCV or a Pipeline do): nothing in the
+    signature is called sample_weight"""
+
+    def fit(self, X, y, **kwargs):
+        extra = set(kwargs) - {"sample_weight"}
+        if extra:
+            raise TypeError("unexpected fit parameters %r" % sorted(extra))
+        return RecordingRegressor.fit(self, X, y, kwargs.get("sample_weight"))
+
+
+class KwargsClassifier(CentroidClassifier):
+    """same for a classifier: weighted nearest centroid, weights only through **kwargs"""
+
+    def fit(self, X, y, **kwargs):
+        extra = set(kwargs) - {"sample_weight"}
+        if extra:
+            raise TypeError("unexpected fit parameters %r" % sorted(extra))
+        self.seen_w_ = None if kwargs.get("sample_weight") is None else np.array(kwargs["sample_weight"], dtype=np.float64, copy=True)
+        return CentroidClassifier.fit(self, X, y, kwargs.get("sample_weight"))
+
+
+class SkewedClassifier(CentroidClassifier):
+    """a binary classifier whose decision_function is NOT the logit of its predict_proba (bagged or calibrated models, SVC with
+    probability=True are like that): thresholding one or the other gives different answers in a band"""
+
+    def __init__(self, scale=1.0, shift=0.75):
+        super().__init__(scale=scale)
+        self.shift = shift
+
+    def decision_function(self, X):
+        return CentroidClassifier.decision_function(self, X) + self.shift
